@@ -19,7 +19,7 @@ RULE = ("(a) FakeBLE -> FakeBLE over the simulated air on all three channels and
         "or rejected by the reference; distinct = (packet class, field shapes, channel).")
 REQUIRED = {"valid_decoded_equal": 600, "corrupted_not_queued": 1500, "available_never_raises": 3000,
             "read_order": 200, "service_values": 400}
-BUDGET = {"quick": 150, "thorough": 500}
+BUDGET = {"quick": 480, "thorough": 900}
 
 CH = [2, 26, 80]
 
